@@ -301,7 +301,7 @@ func evalC18Wire(c *peCase) evalResult {
 func TestC18_Wire(t *testing.T) {
 	haveBins(t, "stgutg_verif")
 	r := ev.New(t, "C18", "TestC18_Wire")
-	n := ev.N(40, 600)
+	n := ev.N(40, 2000)
 	gen := rapid.Custom(genC18Wire)
 	var cases []*peCase
 	if ev.Replay() == "" {
@@ -460,7 +460,7 @@ func evalC18Argv(c *c18ArgvCase) evalResult {
 func TestC18_Argv(t *testing.T) {
 	haveBins(t, "stgutg_verif", "procdriver")
 	r := ev.New(t, "C18", "TestC18_Argv")
-	n := ev.N(120, 2000)
+	n := ev.N(120, 6000)
 	gen := rapid.Custom(genC18Argv)
 	var cases []*c18ArgvCase
 	if ev.Replay() == "" {
